@@ -33,7 +33,9 @@ func (d TaskDef) Equals(otherDef TaskDef) bool {
 		return false
 	}
 	for k, v := range d.Env {
-		if otherDef.Env[k] != v {
+		// The key must exist in the other map too (an empty value is different from a missing key)
+		otherV, exists := otherDef.Env[k]
+		if !exists || otherV != v {
 			return false
 		}
 	}
@@ -121,7 +123,9 @@ func (d PipelineDef) Equals(otherDef PipelineDef) bool {
 		return false
 	}
 	for k, v := range d.Env {
-		if otherDef.Env[k] != v {
+		// The key must exist in the other map too (an empty value is different from a missing key)
+		otherV, exists := otherDef.Env[k]
+		if !exists || otherV != v {
 			return false
 		}
 	}
